@@ -19,6 +19,7 @@ GWY_ID = "18:006402"
 BASE = _d.datetime(2024, 1, 1, 0, 0, 0)
 
 _LIB: dict = {}
+_ACTIVE: list = []  # worlds in existence, innermost last
 
 
 def lib() -> dict:
@@ -86,15 +87,13 @@ class GwyWorld:
                 return world.now()
 
         self.vdt = VDT
-        install_clock(VDT)
-        t = lambda: (self.now() - _d.datetime(1970, 1, 1)).total_seconds()  # noqa: E731
-        L["H"].timestamp = t
-        L["C"].timestamp = t
-        L["EB"].random.uniform = lambda a, b: (a + b) / 2
-        L["P"]._DBG_DISABLE_IMPERSONATION_ALERTS = not impersonation_alerts
+        self._alerts = impersonation_alerts
+        self._parent = _ACTIVE[-1] if _ACTIVE else None
+        _ACTIVE.append(self)
         L["P"].DEFAULT_QOS._wait_for_reply = None
         L["T"]._global_sync_cycles.clear()
-        logcap.CAP.reset()
+        if self._parent is None:
+            logcap.CAP.reset()
         self.gwys: list = []
         self.txs: list = []
         self.written: list[tuple] = []  # (virtual time, gwy index, frame)
@@ -108,7 +107,25 @@ class GwyWorld:
             self.loop.call_soon(lambda: protocol.connection_made(tx, ramses=True))
             return tx
 
-        L["TG"].transport_factory = factory
+        self._factory = factory
+        self.activate()
+
+    def activate(self) -> None:
+        """Make this world the current one: its loop is the running loop, its clock the library's clock."""
+        import asyncio
+        from asyncio import events
+
+        L = lib()
+        events._set_running_loop(None)
+        events._set_running_loop(self.loop)
+        asyncio.set_event_loop(self.loop)
+        install_clock(self.vdt)
+        t = lambda: (self.now() - _d.datetime(1970, 1, 1)).total_seconds()  # noqa: E731
+        L["H"].timestamp = t
+        L["C"].timestamp = t
+        L["EB"].random.uniform = lambda a, b: (a + b) / 2
+        L["P"]._DBG_DISABLE_IMPERSONATION_ALERTS = not self._alerts
+        L["TG"].transport_factory = self._factory
 
     # -- clock
     def now(self) -> _d.datetime:
@@ -195,3 +212,7 @@ class GwyWorld:
         dispose_loop(self.loop)
         L["TG"].transport_factory = L["real_tf"]
         L["EB"].random.uniform = L["real_uniform"]
+        if self in _ACTIVE:
+            _ACTIVE.remove(self)
+        if _ACTIVE:
+            _ACTIVE[-1].activate()  # a nested world was closed: the enclosing one is current again
